@@ -72,6 +72,10 @@ def h_tlv(ctx, n, twin=False):
         earlier_result_survives(ctx, lambda: sym_and(u.tlv_type == t, u.value == val, u.pack() == raw),
                                 [lambda: CfdpTlv.unpack(bytes([6, 3, 9, 8, 7])), lambda: CfdpTlv.unpack(bytes([0, 0]))])
     pack_hands_out_fresh_buffers(ctx, tlv.pack, ctx.bytes_of([t, n] + items_of(val)))
+    if n <= 8:
+        decoded_object_owns_its_data(ctx, CfdpTlv.unpack, [t, n] + items_of(val), lambda x: sym_and(x.tlv_type == t, x.value == val,
+                                                                                                 x.pack() == ctx.bytes_of([t, n] + items_of(val))),
+                                     flavours=("bytearray", "memoryview"))
     t2 = sym_type(ctx, "t2")
     tlv.tlv_type = en(ctx, TlvType, t2)
     ctx.holds("pack after tlv_type assignment carries the new type", sym_and(tlv.pack() == ctx.bytes_of([t2, n] + items_of(val)), tlv.tlv_type == t2))
@@ -209,14 +213,16 @@ def h_simple(ctx, kind, n):
     ctx.holds("pack == reference layout", raw == ctx.bytes_of([typ, n] + items_of(val)))
     ctx.holds("packet_len == len(pack)", sym_and(o.packet_len == n + 2, len(raw) == n + 2))
     ctx.holds("tlv_type", o.tlv_type == typ)
+    decoded_object_owns_its_data(ctx, cls.unpack, [typ, n] + items_of(val), lambda x: sym_and(x.value == val, x.pack() == raw),
+                                 flavours=("bytearray", "memoryview"))
     via_all_routes(ctx, cls, to_name, raw, lambda u: sym_and(u.value == val, u.tlv_type == typ))
     if kind != "entity" or n in (1, 2, 4, 8):
         ctx.holds("== itself decoded", cls.unpack(raw) == o)
 
 
 def h_fault(ctx):
+    # every 4-bit condition code (727.0-B-5 defines more codes than the library's enumeration names, e.g. 9)
     cond = ctx.int("cond", 0, 15)
-    ctx.assume(member(cond, COND_VALUES))
     hc = ctx.int("handler", 1, 4)
     o = FaultHandlerOverrideTlv(en(ctx, ConditionCode, cond), en(ctx, FaultHandlerCode, hc))
     raw = o.pack()
